@@ -20,7 +20,8 @@ use crate::worker::{errname, Runner};
 use wow_mpq::patch::{apply_patch, PatchFile};
 
 pub fn seed_names(thorough: bool) -> Vec<String> {
-    let mut v = vec!["copy".to_string(), "bsd0".to_string()];
+    // "bsd0-pastbase" is tiny and reaches the truncated-combine arithmetic of the BSD0 applier: quick as well
+    let mut v = vec!["copy".to_string(), "bsd0".to_string(), "bsd0-pastbase".to_string()];
     if thorough {
         v.push("bsd0-seek".into());
     }
@@ -244,6 +245,18 @@ pub fn build(name: &str) -> Seed {
                 Step { add: 260, extra: Vec::new(), seek: -560 },
                 Step { add: 400, extra: content(64, 8), seek: 17 },
                 Step { add: 90, extra: content(5, 9), seek: 0 },
+            ];
+            build_bsd0(name, base, steps)
+        }
+        "bsd0-pastbase" => {
+            // add regions that run past the end of the base file (bytes behind it count as zero): step 1 starts
+            // inside the base and ends 90 bytes behind it (the combine loop is cut short), the seek then leaves the
+            // old-file cursor behind the end, so step 2 combines nothing at all
+            let base = content(560, 10);
+            let steps = vec![
+                Step { add: 200, extra: content(24, 11), seek: 300 },
+                Step { add: 150, extra: content(12, 12), seek: 40 },
+                Step { add: 80, extra: content(30, 13), seek: 0 },
             ];
             build_bsd0(name, base, steps)
         }
